@@ -2261,6 +2261,36 @@ class Interp:
         self.C("c12_inflight_shutdown")
         r = await self.obs.command('LIST "" "*"')
         listed = {("inbox" if n.upper() == "INBOX" else n): a for n, a in self.parse_list(r)}
+        # the mailbox list is the one from before the command or the one the completed command gives
+        names_before = set(self.model.boxes)
+        names_after = set(names_before)
+        vop = victim.get("op")
+        if vop == "rename":
+            old, new = norm_mbox_name(victim["name"]), norm_mbox_name(victim["to"])
+            if old in names_before and new not in names_before and new not in (".", "") and not new.startswith(old + "/"):
+                if old == "inbox":
+                    names_after = names_before | {new}
+                else:
+                    names_after = {(new + n[len(old):]) if (n == old or n.startswith(old + "/")) else n for n in names_before}
+                parts = new.split("/")
+                names_after |= {"/".join(parts[:j]) for j in range(1, len(parts))}
+        elif vop == "create":
+            new = norm_mbox_name(victim["name"])
+            if new not in (".", ""):
+                parts = new.split("/")
+                names_after = names_before | {"/".join(parts[:j]) for j in range(1, len(parts) + 1)}
+        elif vop == "delete":
+            names_after = names_before - {norm_mbox_name(victim["name"].lstrip("/"))}
+        if vop in ("rename", "create", "delete"):
+            self.C("c12_inflight_namespace")
+            got = set(listed)
+            if got != names_before and got != names_after and got != (names_before | names_after if vop == "create" else None):
+                self.V("C12", "restart_changed_list", inflight=vop, neither_old_nor_new=True, extra=sorted(got - names_before - names_after)[:6],
+                       missing=sorted((names_before & names_after) - got)[:6])
+        for root, dirs, files in os.walk(self.maildir):
+            for d_ in list(dirs) + list(files):
+                if os.path.islink(os.path.join(root, d_)):
+                    self.V("C12", "symlink_left_in_mail_directory", path=os.path.relpath(os.path.join(root, d_), self.maildir), inflight=vop)
         # the namespace as it is now
         for n in list(self.model.boxes):
             if n not in listed:
@@ -2318,8 +2348,9 @@ class Interp:
                 self.V("C12", "restart_changed_list", appeared=n)
         for n in bl:
             if n in al:
-                ka = {x for x in al[n] if x in ("\\noselect", "\\haschildren", "\\hasnochildren")}
-                kb = {x for x in bl[n] if x in ("\\noselect", "\\haschildren", "\\hasnochildren")}
+                KEEP = ("\\noselect", "\\haschildren", "\\hasnochildren", "\\junk", "\\drafts", "\\sent", "\\trash", "\\archive", "\\flagged", "\\all")
+                ka = {x for x in al[n] if x in KEEP}
+                kb = {x for x in bl[n] if x in KEEP}
                 if ka != kb:
                     self.V("C12", "restart_changed_list_attrs", name=n, before=sorted(kb), after=sorted(ka))
         if sorted(before["lsub"]) != sorted(after["lsub"]):
@@ -2753,7 +2784,18 @@ class NamespaceOps:
             left = [n for n in left if n not in self.model.boxes]
             if left:
                 self.V("C17", "rename_left_behind", old=old, new=new, still_listed=left)
-        await self.after_mutation(moved, "rename")
+        if self.compare and not getattr(self, "shutting_down", False):
+            # C17: RENAME moves every message with its content, flags and internal date (and, except for the INBOX whose
+            # messages go to a new mailbox, its UID) - looked at every time, whatever the probing density
+            self.C("c17_rename_keeps_messages")
+            self.blame = ("C17", "rename_changed_messages")
+            try:
+                for b in moved:
+                    await self.compare_box(b, why="rename")
+            finally:
+                self.blame = None
+        else:
+            await self.after_mutation(moved, "rename")
 
     async def op_subscribe(self, op):
         sess, ms = self.sess(op)
@@ -2824,6 +2866,8 @@ class Pop3Ops:
             return str(n)
         if arg == "beyond":
             return str(n + 1)
+        if arg == "huge":
+            return "9" * 5000  # more digits than Python's int() converts
         return str(arg)
 
     async def op_pop(self, op):
@@ -2843,7 +2887,11 @@ class Pop3Ops:
         self.C("c20_reply")
         if status is None:
             if not closed:
-                self.V("C20", "pop3_no_reply", cmd=line)
+                self.V("C20", "pop3_no_reply", cmd=line[:80])
+            else:
+                # nothing a client can send in TRANSACTION state makes the server hang up without an answer
+                self.C("c20_answered")
+                self.V("C20", "pop3_connection_dropped", cmd=line[:80])
             return
         ok = status.startswith(b"+OK")
         if not ok and not status.startswith(b"-ERR"):
@@ -2859,6 +2907,17 @@ class Pop3Ops:
                 self.V("C20", "pop3_invalid_number_accepted", cmd=line, status=status[:60].decode("latin-1"))
                 if verb == "DELE":
                     st["dele_unknown"] = True
+            return
+        if verb == "TOP" and op.get("arg2") is not None and not re.fullmatch(r"[0-9]+", str(op["arg2"])):
+            self.C("c20_invalid_number")
+            if ok:
+                self.V("C20", "pop3_invalid_number_accepted", cmd=line[:80], status=status[:60].decode("latin-1"))
+            return
+        if tok_ is not None and len(tok_) > 12:
+            # a number beyond any message count
+            self.C("c20_invalid_number")
+            if ok:
+                self.V("C20", "pop3_invalid_number_accepted", cmd=line[:40] + "...", status=status[:60].decode("latin-1"))
             return
         try:
             argn = int(tok_) if tok_ is not None else None
